@@ -1092,6 +1092,62 @@ fn main() {
     }
     for (k, v) in &verdicts { dist.insert(format!("inprocess_verdict_{k}"), *v); }
 
+    // ---- 4a. fixed corpus (every seed, every tier): small projects whose verdict / denotation must not depend on the
+    // order of two object definitions, within one file or across two files
+    {
+        let yaml = |n: usize| -> String {
+            let mut y = String::from("schema:\n");
+            for i in 0..n { y.push_str(&format!("  - ./schema/s{i}.graphql\n")); }
+            y.push_str("documents:\n  - ./ops/q0.graphql\nextensions:\n  nitrogql:\n    generate:\n      mode: with-loader-ts-5.0\n      schemaOutput: ./out/schema.d.ts\n      serverGraphqlOutput: ./out/graphql.ts\n      resolversOutput: ./out/resolvers.d.ts\n      schemaModuleSpecifier: \"@/generated/schema\"\n");
+            y
+        };
+        // (name, common head, definition X, definition Y, common tail, operation)
+        let corpus: [(&str, &str, &str, &str, &str, &str); 2] = [
+            ("interface-spread-on-second-implementer",
+             "interface Node { id: ID! }\ninterface Named { name: String }\n",
+             "type Comment implements Node { id: ID! }\n",
+             "type Post implements Node & Named { id: ID! name: String }\n",
+             "type Query { node: Node }\n",
+             "query Q { node { id ... on Named { name } } }\n"),
+            ("interface-field-nullability-per-implementer",
+             "interface Pet { name: String }\n",
+             "type Cat implements Pet { name: String! }\n",
+             "type Dog implements Pet { name: String }\n",
+             "type Query { pets: [Pet!]! }\n",
+             "query Q { pets { name } }\n"),
+        ];
+        for (name, head, x, y, tail, op) in corpus.iter() {
+            let arrangements: Vec<(&str, Vec<String>)> = vec![
+                ("one file, X before Y", vec![format!("{head}{x}{y}{tail}")]),
+                ("one file, Y before X", vec![format!("{head}{y}{x}{tail}")]),
+                ("two files, X in the first", vec![format!("{head}{x}"), format!("{y}{tail}")]),
+                ("two files, Y in the first", vec![format!("{head}{y}"), format!("{x}{tail}")]),
+                ("two files, definitions first", vec![format!("{y}{x}"), format!("{head}{tail}")]),
+            ];
+            let canon_of = |o: &Outcome| -> Vec<(String, u64)> {
+                o.files.iter().filter(|(k, _)| !k.ends_with(".map") && !k.ends_with("out/graphql.ts")).map(|(k, v)| (k.clone(), fnv(&canon(v)))).collect()
+            };
+            let run = |files: &Vec<String>| -> Outcome {
+                let (f, o, y) = (files.clone(), vec![op.to_string()], yaml(files.len()));
+                catch(move || run_inproc(&f, &o, &y)).unwrap_or_else(|m| Outcome { verdict: format!("panic: {m}"), diagnostics: vec![], files: BTreeMap::new() })
+            };
+            let base = run(&arrangements[0].1);
+            for (label, files) in arrangements.iter().skip(1) {
+                let other = run(files);
+                let (c1, c2) = (canon_of(&base), canon_of(&other));
+                let differing: Vec<&String> = c1.iter().zip(c2.iter()).filter(|(a, b)| a != b).map(|(a, _)| &a.0).collect();
+                let t = format!("CPerm {} {} {} {}", coq_str(&base.verdict), coq_str(&other.verdict),
+                    coq_list(&c1, |(k, d)| format!("({}, {})", coq_str(k), coq_n(*d))), coq_list(&c2, |(k, d)| format!("({}, {})", coq_str(k), coq_n(*d))));
+                distinct.insert(fnv(&format!("{t}{name}{label}")));
+                cases.push(t, json!({"kind":"perm","corpus":name,"arrangement":label,"schema_files":arrangements[0].1,"permuted_schema_files":files,
+                    "operations":[op],"config":yaml(arrangements[0].1.len()),"permuted_config":yaml(files.len()),
+                    "verdict":base.verdict,"permuted_verdict":other.verdict,"diagnostics":base.diagnostics,"permuted_diagnostics":other.diagnostics,
+                    "files_whose_normal_form_differs":differing}));
+            }
+            dist.insert(format!("corpus_{name}_verdict_{}", base.verdict.split(':').next().unwrap()), 1);
+        }
+    }
+
     // ---- 4. permuted projects: verdict and denotation
     let n_perm = if thorough { 3000 } else { 100 };
     let mut perm_done = 0;
